@@ -1622,6 +1622,10 @@ class Evaluator:
                 out.dt = ta
             elif ta is not None and tb is not None and ta == INT:
                 out.dt = tb
+            # an integer power / self-product taken in the element type the caller's data has (dtypes.py, DT3)
+            if ta is not None and ta[0] == 'same' and ((isinstance(op, ast.Pow) and nb.length is None and nb.r.is_const() and nb.r.const_value().denominator == 1
+                                                        and nb.r.const_value() >= 2) or (isinstance(op, ast.Mult) and nb.length is not None and na.r == nb.r)):
+                self.emit('selfpower', st, node, base=na, tag=ta, op=type(op).__name__)
         return carry_mask(self, out, na, nb, st=st, node=node)
 
     def eval_BoolOp(self, e, st):
